@@ -192,6 +192,8 @@ type World struct {
 	ghostFields map[string]map[string]*ghostFieldInfo // owner type string -> field name -> info
 	lock      nameLock
 	lockNotes map[string]bool
+	uncovered []string // exported functions of the involved packages outside every contract of this run
+	closure   []string // callees pulled into the property check because a target relies on their contract
 	pendingGhosts []*GhostField
 	ghostVars     map[string]*ghostVarInfo
 	specHeapBusy map[string]bool
